@@ -5,7 +5,7 @@
    The refinement "Go code refines AM" itself is not a theorem: C02_partial. *)
 From stdpp Require Import gmap list.
 From Coq Require Import NArith.
-From V Require Import Model.Lib Model.Afs Proofs.AfsLaws Proofs.AfsInv Proofs.AfsData.
+From V Require Import Model.Lib Model.Afs Proofs.AfsLaws Proofs.AfsInv Proofs.AfsData Proofs.AfsRename.
 Open Scope N_scope.
 
 Theorem C02_failed_call_identity : forall P s c h,
@@ -64,3 +64,16 @@ From V Require Proofs.ConstsConform.
 Theorem C02_reply_constants_conform : V.Proofs.ConstsConform.reply_constants_conform.
 Proof. exact V.Proofs.ConstsConform.reply_constants_ok. Qed.
 Print Assumptions C02_reply_constants_conform.
+
+(* a successful RENAME, in every state satisfying the namespace invariant (i.e. every reachable state): the object is
+   found under the new name, the old name is gone, the object itself is unchanged, a replaced target no longer exists *)
+Theorem C02_rename_effect : forall P s h1 n1 h2 n2 s' d1i d1 d2i d2 fi fo,
+  ainv s -> rename P s h1 n1 h2 n2 = (s', RStatus OK) ->
+  resolve P s h1 = Some (d1i, d1) -> resolve P s h2 = Some (d2i, d2) ->
+  o_ents d1 !! n1 = Some fi -> objs s !! fi = Some fo -> o_ents d2 !! n2 <> Some fi ->
+  exists d1' d2' fo',
+    objs s' !! d1i = Some d1' /\ objs s' !! d2i = Some d2' /\ objs s' !! fi = Some fo' /\
+    o_ents d2' !! n2 = Some fi /\ ((d1i, n1) <> (d2i, n2) -> o_ents d1' !! n1 = None) /\
+    same_object fo fo' /\ o_parent fo' = d2i /\ (forall ti, o_ents d2 !! n2 = Some ti -> objs s' !! ti = None).
+Proof. exact rename_effect. Qed.
+Print Assumptions C02_rename_effect.
